@@ -184,6 +184,8 @@ def shapes(tier, rnd):
     out.append(S("named-tuplefield", "named", [("a", "(u8, i8)"), ("b", "bool")]))
     out.append(S("partial-only", "named", [("a", "Po"), ("b", "u8")], traits=["Clone", "PartialEq", "PartialOrd"]))
     out.append(S("float-field", "named", [("a", "f32"), ("b", "u8")], traits=["Clone", "PartialEq", "PartialOrd", "Default"]))
+    # an incomparable later field must not override the order decided by an earlier one
+    out.append(S("float-last", "named", [("a", "u8"), ("b", "f32"), ("c", "Po")], traits=["Clone", "PartialEq", "PartialOrd"]))
     out.append(S("assoc-type-shorthand", "named", [("a", "A::Out"), ("b", "u8")], generics_decl="<A: HasOut>", generics_use="<PAll>"))
     out.append(S("raw-ident-fields", "named", [("r#type", "u8"), ("r#match", "i8")]))
     out.append(S("raw-ident-type", "tuple", [(None, "u8")], name="r#struct"))
